@@ -823,6 +823,9 @@ func execStringsPadding(fn parser.Function, args []value.Primary, direction Dire
 	if length <= strLen {
 		return args[0], nil
 	}
+	if padstrLen < 1 {
+		return value.NewNull(), nil
+	}
 
 	padLen := length - strLen
 	repeat := int(math.Ceil(float64(padLen) / float64(padstrLen)))
